@@ -22,6 +22,13 @@ dump of the plain, link-free object opened with the same option.  An unstripped 
 payload: its own data must be what is loaded.  Link targets that are present but not decodable (the debug file / the
 supplementary file written under a bad plan, or not an ELF file): when the machine reaches the target the load must end
 with the target's own error (outcome error:<kind>), when it does not reach it the target is never read.
+Section types and the set of debug sections (round 5): the families "stype" (debug sections typed SHT_MIPS_DWARF / .eh_frame typed
+SHT_X86_64_UNWIND / an application type, x encodings, bad sizes, links) and "full" (a payload that uses every debug section name of
+DWARF 4 resp. 5, encodings chosen per section: uniform and one-against-the-rest).  The dump covers what those sections contribute:
+type units, aranges, pubnames / pubtypes, all location / range lists and the ones the entries designate; the reference of every
+payload is also compared with the abstract tables the specification wrote the sections from (view.lines, view.aranges, view.pubnames,
+view.pubtypes, view.loc, view.ranges, view.loclists, view.rnglists, view.frame, view.types) and must have no unreadable part
+(ref.exception).  The full payload is written in the 32-bit DWARF format only.
 Metamorphic part: the same container transforms are applied harness-side to corpus files (section
 contents rewritten generically through the record layouts the specification exports; zlib levels
 0/1/6/9; SHF_COMPRESSED, .zdebug renaming, per-section mixtures of plain / SHF_COMPRESSED / .zdebug, stripping + .gnu_debuglink with right/wrong CRC,
@@ -49,6 +56,7 @@ Not asserted: .eh_frame tables reached through a debug link in corpus/objcopy fi
 followed; an unstripped file with a wrong-CRC link (either answer, see Container.tla)."""
 import binascii
 import io
+import json
 import os
 import shutil
 import subprocess
@@ -168,14 +176,57 @@ def _cfi(entries):
     return out
 
 
+def _lut(lut):
+    return None if lut is None else sorted([k, v.cu_ofs, v.die_ofs] for k, v in lut.items())
+
+
+def _aranges(di):
+    ar = di.get_aranges()
+    return None if ar is None else sorted(_norm(list(e)) for e in ar.entries)
+
+
+LIST_FORMS = ('DW_FORM_sec_offset', 'DW_FORM_loclistx', 'DW_FORM_rnglistx')
+MAX_LISTS_BY_ATTR = 40
+
+
+def _lists_by_attr(di):
+    """The location / range lists the entries designate (DW_AT_location / DW_AT_ranges of class loclist / rnglist), resolved
+    through the public lookups; the first MAX_LISTS_BY_ATTR of a file."""
+    ll, rl, out = di.location_lists(), di.range_lists(), []
+    for cu in di.iter_CUs():
+        for die in cu.iter_DIEs():
+            for a in die.attributes.values():
+                if a.form not in LIST_FORMS or a.name not in ('DW_AT_location', 'DW_AT_ranges'):
+                    continue
+                if len(out) >= MAX_LISTS_BY_ATTR:
+                    return out
+                if a.name == 'DW_AT_location':
+                    out.append([die.offset, a.name, None if ll is None else _part(lambda: _norm(ll.get_location_list_at_offset(a.value, die)))])
+                else:
+                    out.append([die.offset, a.name, None if rl is None else _part(lambda: _norm(rl.get_range_list_at_offset(a.value, cu)))])
+    return out
+
+
+def _all_lists(lists, it):
+    return None if lists is None else _norm([list(x) for x in it(lists)])
+
+
 def full_dump(di):
-    """Everything the property calls 'the debugging information': units, entries, line tables, frame tables."""
+    """Everything the property calls 'the debugging information': units, entries, line tables, frame tables - and what the other
+    debug sections contribute to it: type units, lookup tables (aranges, pubnames, pubtypes), location and range lists (all of
+    them in section order, and those the entries designate)."""
     d = {'has_debug_info': bool(di.has_debug_info), 'sup': di.supplementary_dwarfinfo is not None}
     d['units'] = _part(lambda: _units(di)) if di.has_debug_info else []
     d['types'] = _part(lambda: _tunits(di)) if di.debug_types_sec is not None else []
     d['lines'] = _part(lambda: _lines(di)) if di.has_debug_info and di.debug_line_sec is not None else []
     d['cfi'] = _part(lambda: _cfi(di.CFI_entries())) if di.has_CFI() else None
     d['ehcfi'] = _part(lambda: _cfi(di.EH_CFI_entries())) if di.has_EH_CFI() else None
+    d['aranges'] = _part(lambda: _aranges(di))
+    d['pubnames'] = _part(lambda: _lut(di.get_pubnames()))
+    d['pubtypes'] = _part(lambda: _lut(di.get_pubtypes()))
+    d['loclists'] = _part(lambda: _all_lists(di.location_lists(), lambda x: x.iter_location_lists()))
+    d['rnglists'] = _part(lambda: _all_lists(di.range_lists(), lambda x: x.iter_range_lists()))
+    d['lists_by_attr'] = _part(lambda: _lists_by_attr(di)) if di.has_debug_info else []
     if di.supplementary_dwarfinfo is not None:
         d['supunits'] = _part(lambda: _units(di.supplementary_dwarfinfo))
     return d
@@ -221,7 +272,7 @@ class Loader:
         return io.BytesIO(self.table[bytes(name)])
 
 
-def observe(main, table, use_loader, follow, want_dump=True, reloc=True):
+def observe(main, table, use_loader, follow, want_dump=True, reloc=True, history=True):
     """Open `main` and load its debugging information (options follow_links = follow, relocate_dwarf_sections = reloc).
     Returns a dict of observations; exceptions become values."""
     from elftools.elf.elffile import ELFFile
@@ -258,7 +309,7 @@ def observe(main, table, use_loader, follow, want_dump=True, reloc=True):
         obs['loader_calls'] = loader.calls if loader else []
         # the answer does not depend on what was asked before on the same object: ask with the other follow_links value first
         obs['history_dependent'] = None
-        if want_dump and 'exc' not in obs:
+        if want_dump and history and 'exc' not in obs:
             try:
                 ef2 = ELFFile(io.BytesIO(main), stream_loader=Loader(table)) if use_loader else ELFFile(io.BytesIO(main))
                 try:
@@ -353,6 +404,55 @@ def check_view(di, view, bad):
                     bad('view.attr.value', exp, _short(a.value), form=av['form'])
 
 
+def check_secview(di, sv, bad):
+    """The other debug sections of the full payload against the tables the specification wrote them from (Container!SecViewOf)."""
+    def cmp(clause, exp, obs):
+        if exp != obs:
+            bad('view.' + clause, _short(exp), _short(obs))
+    # the line table of each unit: its rows
+    rows = []
+    for cu in di.iter_CUs():
+        lp = di.line_program_for_CU(cu)
+        if lp is not None:
+            rows.append([[e.state.address, e.state.line, bool(e.state.end_sequence)] for e in lp.get_entries() if e.state is not None])
+    cmp('lines', [[[r['addr'], r['line'], r['end']] for r in t] for t in sv['lines']], rows)
+    if not sv['full']:
+        return
+    ar = di.get_aranges()
+    cmp('aranges', sorted([e['begin'], e['len'], e['info']] for e in sv['aranges']),
+        None if ar is None else sorted([e.begin_addr, e.length, e.info_offset] for e in ar.entries))
+    for sec, get in (('pubnames', di.get_pubnames), ('pubtypes', di.get_pubtypes)):
+        lut = get()
+        cmp(sec, sorted([bytes(e['name']).decode('latin-1'), e['cu'], e['die']] for e in sv[sec]),
+            [] if lut is None else sorted([k, v.cu_ofs, v.die_ofs] for k, v in lut.items()))
+    ll, rl = di.location_lists(), di.range_lists()
+    if sv['loc']:
+        cmp('loc', [[[e['b'], e['e'], list(e['expr'])] for e in lst] for lst in sv['loc']],
+            None if ll is None else [[[e.begin_offset, e.end_offset, list(e.loc_expr)] for e in lst] for lst in ll.iter_location_lists()])
+    if sv['ranges']:
+        cmp('ranges', [[list(e) for e in lst] for lst in sv['ranges']],
+            None if rl is None else [[[e.begin_offset, e.end_offset] for e in lst] for lst in rl.iter_range_lists()])
+    if sv['lists']:
+        want = sv['lists'][0]
+        gotl, gotr = [], []
+        for cu in di.iter_CUs():
+            for die in cu.iter_DIEs():
+                for a in die.attributes.values():
+                    if a.name == 'DW_AT_location' and a.form == 'DW_FORM_loclistx':
+                        gotl.append(None if ll is None else [[e.begin_offset, e.end_offset, list(e.loc_expr)] for e in ll.get_location_list_at_offset(a.value, die)])
+                    if a.name == 'DW_AT_ranges' and a.form == 'DW_FORM_rnglistx':
+                        gotr.append(None if rl is None else [[e.begin_offset, e.end_offset] for e in rl.get_range_list_at_offset(a.value, cu)])
+        cmp('loclists', [[[e['b'], e['e'], list(e['expr'])] for e in want['loc']]], gotl)
+        cmp('rnglists', [[list(e) for e in want['rng']]], gotr)
+    ents = list(di.CFI_entries()) if di.has_CFI() else []
+    cmp('frame', [[e['kind'], e['off']] + ([e['loc'], e['range'], e['cie']] if e['kind'] == 'FDE' else []) for e in sv['frame']],
+        [[type(e).__name__, e.offset] + ([e.header['initial_location'], e.header['address_range'], e.cie.offset] if type(e).__name__ == 'FDE' else [])
+         for e in ents])
+    tus = list(di.iter_TUs()) if di.debug_types_sec is not None else []
+    cmp('types', [[t['off'], denote(t['sig']), t['typeoff'], [d['off'] for d in t['dies']]] for t in sv['types']],
+        [[t.tu_offset, t.header['signature'], t.header['type_offset'], [d.offset for d in t.iter_DIEs()]] for t in tus])
+
+
 # ------------------------------------------------------------------ G: the specification's images
 def _key(x):
     return core.digest(x)
@@ -407,10 +507,11 @@ def run_spec_cases(run, res, only_tag=None):
         tag = _tag(case)
         if only_tag is not None and tag != only_tag and not case['isref']:
             continue
-        brief = {'cfg': {k: case[k] for k in ('fam', 'cls', 'le', 'ver', 'fmt', 'plan', 'dl', 'home', 'sup', 'supplan', 'loader', 'follow',
-                                              'rel', 'reloc', 'tgt')},
+        brief = {'cfg': {k: case[k] for k in ('fam', 'cls', 'le', 'ver', 'fmt', 'plan', 'plantag', 'dl', 'home', 'sup', 'supplan', 'loader', 'follow',
+                                              'rel', 'reloc', 'tgt', 'stype', 'full')},
                  'expect': case['outcome'], 'main_b64': core.b64(main), 'files_b64': {k.decode(): core.b64(v) for k, v in table.items()}}
-        nontrivial = case['plan'] not in ('plain', 'none') or case['dl'] != 'none' or case['sup'] != 'none' or case['rel'] != 'none'
+        nontrivial = case['plan'] not in ('plain', 'none') or case['dl'] != 'none' or case['sup'] != 'none' or case['rel'] != 'none' \
+            or case['stype'] != 'progbits'
         suploaded = case['suploaded']
         run.count(_key([case['img'], case['loader'], case['follow'], case['reloc']]), nontrivial=nontrivial,
                   sample={'cfg': brief['cfg'], 'outcome': case['outcome'], 'suploaded': case['suploaded'], 'main_size': len(main),
@@ -419,7 +520,8 @@ def run_spec_cases(run, res, only_tag=None):
         def bad(clause, exp, obs, **kw):
             run.mismatch(clause, tag, dict(brief, **kw), exp, obs)
         try:
-            o = observe(main, table, case['loader'], case['follow'], reloc=case['reloc'])
+            # (the families that vary section types / the set of sections do not vary the history of calls)
+            o = observe(main, table, case['loader'], case['follow'], reloc=case['reloc'], history=case['fam'] not in ('stype', 'full'))
         except core.CallTimeout as ex:
             bad('timeout', 'an answer', str(ex))
             continue
@@ -477,12 +579,19 @@ def run_spec_cases(run, res, only_tag=None):
                         di = ELFFile(io.BytesIO(main), stream_loader=Loader(table) if case['loader'] else None).get_dwarf_info(
                             relocate_dwarf_sections=case['reloc'], follow_links=case['follow'])
                         check_view(di, v, bad)
+                        check_secview(di, v['secview'], bad)
                     except core.CallTimeout as ex:
                         bad('timeout', 'an answer', str(ex))
                     except Exception as ex:
                         bad('view.exception', 'no exception', _exc(ex))
             if bool(d['sup']) != suploaded:
                 bad('sup_loaded', suploaded, d['sup'])
+            # the payloads are well-formed: every part of the reference's dump is there
+            broken = sorted(k for k, x in d.items() if '"EXC:' in json.dumps(x))
+            if broken:
+                bad('ref.exception', 'every part of the plain encoding readable', {k: _short(d[k]) for k in broken})
+            if case['full']:
+                run.extra['full_refs'] = run.extra.get('full_refs', 0) + 1
             if d['lines'] and isinstance(d['lines'], list) and d['lines'][0] and len(d['lines'][0][3]) < 4:
                 bad('ref.lines', 'a line program', _short(d['lines']))
             if case['eh'] and not (isinstance(d['ehcfi'], list) and len(d['ehcfi']) == 3):
@@ -521,8 +630,10 @@ def run_spec_cases(run, res, only_tag=None):
 
 
 def _tag(case):
-    return '%s:%s/plan=%s%s%s' % (case['fam'], case['sup'] if case['sup'] != 'none' else case['dl'] if case['dl'] != 'none' else 'nolink',
-                                  case['plantag'], case.get('tgttag', ''), '' if case['reloc'] else '/norelocate')
+    stype = case.get('stype', 'progbits')
+    return '%s:%s/plan=%s%s%s%s' % (case['fam'], case['sup'] if case['sup'] != 'none' else case['dl'] if case['dl'] != 'none' else 'nolink',
+                                    case['plantag'], case.get('tgttag', ''), '' if case['reloc'] else '/norelocate',
+                                    '' if stype == 'progbits' else '/type=' + stype)
 
 
 def ask(run, tag, brief, main, table, q, ref, supref):
@@ -650,10 +761,11 @@ class ElfRw:
 
 
 def _is_debug(rw, i):
-    """A section the compression transforms apply to: named .debug_*, with file contents, not loaded."""
+    """A section the compression transforms apply to: named .debug_*, with file contents (whatever its type: SHT_PROGBITS,
+    SHT_MIPS_DWARF, ... - any but SHT_NOBITS / SHT_NULL), not loaded."""
     s = rw.sh[i]
-    return rw.names[i].startswith(bytes(rw.lay['debug_prefix'])) and s['sh_type'] == rw.lay['sht_progbits'] and not (s['sh_flags'] & 2) \
-        and s['sh_size'] > 0
+    return rw.names[i].startswith(bytes(rw.lay['debug_prefix'])) and s['sh_type'] not in (rw.lay['sht_nobits'], rw.lay['sht_null']) \
+        and not (s['sh_flags'] & 2) and s['sh_size'] > 0
 
 
 def t_gabi(data, layout, level):
@@ -672,7 +784,7 @@ def t_plain(data, layout):
     rw = ElfRw(data, layout)
     n = 0
     for i in range(len(rw.sh)):
-        if rw.sh[i]['sh_flags'] & layout['shf_compressed'] and rw.sh[i]['sh_type'] == layout['sht_progbits']:
+        if rw.sh[i]['sh_flags'] & layout['shf_compressed'] and rw.sh[i]['sh_type'] != layout['sht_nobits']:
             d = rw.content(i)
             hs = rw.L['chsize']
             vals = {f: rw._get(d, o, w) for f, o, w in rw.L['chdr']}
@@ -946,7 +1058,6 @@ def _objcopy_variants(run, data, base, table, use_loader, ref):
 # ------------------------------------------------------------------ entry point
 def replay(run, path):
     """Re-run exactly the cases of one replay file (the images are regenerated by TLC, corpus files re-transformed)."""
-    import json
     rec = json.load(open(path))
     thorough = run.tier == 'thorough'
     res = run.tlc('Container', 'Container_thorough' if thorough else 'Container_quick', workers=min(8, core.NPROC))
@@ -967,7 +1078,9 @@ def check(run):
                 'version/format x .eh_frame, link families (stripped+.gnu_debuglink right/wrong CRC, unstripped with link, .gnu_debugaltlink, '
                 '.debug_sup with is_supplementary 0/1, stripped->debug->supplementary chains, relocatable carrier direct / behind a link) x encodings '
                 'of every file x loader x follow_links (x relocate_dwarf_sections in the chain and relocatable families), link targets '
-                'written under the 7 bad plans or not an ELF file; '
+                'written under the 7 bad plans or not an ELF file; section types of the debug sections (SHT_PROGBITS / SHT_MIPS_DWARF / SHT_X86_64_UNWIND / '
+                'application range) x encodings x links; the full payload (every debug section name of DWARF 4 / 5) x uniform and one-against-the-rest '
+                'per-section encodings; '
                 '(a2) every maximal sequence of repeated questions (supplementary file name / load it / walk the view again) to the loaded object of the link '
                 'configurations, answers computed by the machine; '
                 '(b) corpus file x harness-side transform (gABI / .zdebug at zlib levels, per-section mixtures, decompression, split + link, supplementary pairs'
@@ -979,7 +1092,10 @@ def check(run):
                         '.eh_frame tables are not compared when the debug data come from a separate file of the corpus/objcopy '
                         '(--only-keep-debug empties it)',
                         'full dump = units, type units, DIEs (offset, tag, code, children flag, size, attributes with name/form/value/raw/offset), '
-                        'line programs (header, every entry with its state), .debug_frame and .eh_frame entries (header, instructions, decoded table)']
+                        'line programs (header, every entry with its state), .debug_frame and .eh_frame entries (header, instructions, decoded table), '
+                        'aranges entries, pubnames / pubtypes entries, every location / range list in section order and the first 40 the entries designate',
+                        'corpus transforms apply to .debug_* sections of any type but SHT_NOBITS / SHT_NULL (SHT_MIPS_DWARF on MIPS objects)',
+                        'the full payload (every debug section name) is written in the 32-bit DWARF format only']
     thorough = run.tier == 'thorough'
     res = run.tlc('Container', 'Container_thorough' if thorough else 'Container_quick', workers=min(8, core.NPROC))
     layout = run_spec_cases(run, res)
